@@ -232,9 +232,13 @@ def worker_main(argv):
             res["fail_counts"][fk] += 1
             if fk not in seen_clause and len(seen_clause) < 12:
                 seen_clause[fk] = 1
-                small, tries = shrink(prop, case, clause, kid=kid)
-                o2 = run_case(prop, small)
-                detail = next((d for c, d in o2.fails if c == clause), None)
+                try:
+                    small, tries = shrink(prop, case, clause, kid=kid)
+                    o2 = run_case(prop, small)
+                    detail = next((d for c, d in o2.fails if c == clause), None)
+                except Exception:      # a shrink candidate outside the generator's domain must not kill the worker
+                    small, tries = case, -1
+                    detail = next((d for c, d in out.fails if c == clause), None)
                 res["failures"].append({"clause": clause, "known": kid, "index": i, "case": small,
                                         "original_case": case, "detail": detail, "shrink_tries": tries})
     res["digest"] = fold.hexdigest()
